@@ -299,6 +299,11 @@ func (s *backendSuite) do(t []string) string {
 			for s.b.GetCurrentRevision() != want && time.Now().Before(deadline) {
 				time.Sleep(200 * time.Microsecond)
 			}
+			if s.b.GetCurrentRevision() != want && s.wait > 150*time.Millisecond {
+				// the expected observation did not arrive: the transcripts already differ, do not
+				// spend the full bound on every later wait of this script
+				s.wait = 150 * time.Millisecond
+			}
 		}
 		return fmt.Sprintf("rev %d", s.b.GetCurrentRevision())
 	case "setrev":
